@@ -129,6 +129,8 @@ CASES += [
  ("C06rank", "metrics/ranking/_dcg.py", "        realized = array_dcg(np.require(scores, np.float32), self.discount)\n        return realized / ideal", "        realized = array_dcg(np.require(scores, np.float32), self.discount)\n        return ideal / realized", "break"),
  ("C06rank", "metrics/ranking/_dcg.py", "        realized = array_dcg(np.require(scores, np.float32), self.discount)\n        return realized / ideal", "        dcg = array_dcg(np.require(scores, np.float32), self.discount)\n        return dcg / ideal", "keep"),
  ("C06rank", "metrics/ranking/_dcg.py", "                gains = gains.sort_values(ascending=False)\n            ideal = array_dcg", "                gains = gains.sort_values(ascending=True)\n            ideal = array_dcg", "break"),
+ ("C06rank", "metrics/ranking/_pop.py", "        ranks = self.item_ranks.reindex(items, fill_value=0)\n        return ranks.mean()", "        ranks = self.item_ranks.reindex(items)\n        return ranks.mean()", "break"),
+ ("C06rank", "metrics/ranking/_pop.py", "        ranks = self.item_ranks.reindex(items, fill_value=0)\n        return ranks.mean()", "        ranks = self.item_ranks.reindex(items, fill_value=0)\n        return ranks.sum()", "break"),
  ("C06rank", "metrics/ranking/_pr.py", "        return ngood / nrecs", "        return ngood / len(test)", "break"),
  ("C06rank", "metrics/ranking/_recip.py", "            return 1.0 / (npz[0] + 1.0)", "            return 1.0 / npz[0]", "break"),
  ("C06rank", "metrics/ranking/_rbp.py", "            max = np.sum(disc[: min(nrel, k)])", "            max = np.sum(disc[:nrel])", "break"),
